@@ -114,8 +114,10 @@ class ConfigHelpAction(argparse.Action):
     def __call__(self, parser, namespace, values, option_string=None):
         from .prettyprint import pretty_print_dict, PrettyPrintConfig
 
-        header = entrypoint_configurables[parser.prog].__name__
-        config = build_config(parser.prog, True)
+        # (the parser of a sub-command is called e.g. "git-nbdifftool diff")
+        entrypoint = parser.prog.split(' ')[0]
+        header = entrypoint_configurables[entrypoint].__name__
+        config = build_config(entrypoint, True)
         pretty_print_dict(
             {
                 header: modify_config_for_print(config),
